@@ -10,7 +10,7 @@ TRUSTED = ['Coq 8.16.1 kernel + vm_compute', 'translator/py2coq.py + translator/
 CORR_V = r'''
 From Coq Require Import ZArith List Bool String.
 Require Import DV.Base.Prelude DV.Base.F64 DV.Spec.Schema DV.Lib.Corr.
-From G Require Import Gen_util Gen_model Gen_controller.
+From G Require Import Gen_util Gen_model Gen_controller Gen_solver.
 Import ListNotations.
 Open Scope Z_scope.
 Definition blank_model (m : Z) (objbeg abstol reltol : F) : @model_state ArithF64 :=
@@ -23,7 +23,79 @@ Definition eo_case (m nf nx maxfun ns : Z) (x : list F) (sc : option (list F * l
        hashZ (fl_mat rv)]
   | Err e => [err_code e]
   end.
+Definition x0_case (nf0 nx0 maxfun ns : Z) (x0 : list F) (sc : option (list F * list F)) (answers : list (list F * F)) : list Z :=
+  match @py_solver_x0_block ArithF64 nf0 nx0 maxfun ns x0 sc answers [] with
+  | Ok (_, log, (nf, nx, run, ex)) =>
+      [nf; nx; run; match ex with None => -9 | Some (f, _) => f end; hashZ (List.concat (map (fun e => fl_vec (fst (fst e)) ++ [snd (fst e); snd e]) log))]
+  | Err e => [err_code e]
+  end.
 '''
+
+
+def x0_real_task(args):
+    """the x0 sampling block of solve_main in real dfols.solve() runs: the objective calls made directly by solve_main (log entries
+    x, evaluation number, point number) against the regenerated counter slice run on the same answers"""
+    seed, count = args
+    import sys, warnings
+    import dfols.solver as ds
+    from .. import histcorr
+    rng = np.random.default_rng(seed)
+    out = []
+    orig_sm, orig_els = ds.solve_main, ds.eval_least_squares_with_regularisation
+    stack = []
+
+    def els(objfun, x, h, **kw):
+        r, o = orig_els(objfun, x, h, **kw)
+        if stack and sys._getframe(1).f_code.co_name == 'solve_main':
+            stack[-1]['log'].append((np.array(x, dtype=float).copy(), int(kw.get('eval_num', 0)), int(kw.get('pt_num', 0))))
+            stack[-1]['answers'].append((np.array(r, dtype=float).copy(), float(o)))
+        return r, o
+
+    def sm(objfun, x0, argsf, xl, xu, projections, npt, rhobeg, rhoend, maxfun, nruns_so_far, nf_so_far, nx_so_far, nsamples, params,
+           diagnostic_info, scaling_changes, *a, **k):
+        rec = dict(log=[], answers=[], nf0=int(nf_so_far), nx0=int(nx_so_far), maxfun=int(maxfun), x0=np.array(x0, dtype=float).copy(),
+                   sc=None if scaling_changes is None else (np.array(scaling_changes[0], dtype=float).copy(), np.array(scaling_changes[1], dtype=float).copy()),
+                   ns=max(int(nsamples(rhobeg, rhobeg, 0, nruns_so_far)), 1), fresh=(k.get('r0_avg_old') is None and (len(a) < 6 or a[5] is None)))
+        stack.append(rec)
+        try:
+            return orig_sm(objfun, x0, argsf, xl, xu, projections, npt, rhobeg, rhoend, maxfun, nruns_so_far, nf_so_far, nx_so_far, nsamples, params,
+                           diagnostic_info, scaling_changes, *a, **k)
+        finally:
+            stack.pop()
+            if rec['fresh'] and rec['log'] and len(out) < 60:
+                flat = []
+                for (xx, e, p) in rec['log']:
+                    flat += IO.fl_vec(xx) + [e, p]
+                run = len(rec['log'])
+                nf = rec['nf0'] + run
+                short = run < rec['ns']
+                exp = [nf, rec['nx0'] + 1, run, (1 if short else -9), IO.hashZ(flat)]
+                sc = rec['sc']
+                sclit = 'None' if sc is None else '(Some (%s, %s))' % (IO.vlit(sc[0]), IO.vlit(sc[1]))
+                # the slice consumes one answer per call; give it spare ones so that a model that called more often would show
+                ans = rec['answers'] + [rec['answers'][-1]] * 3
+                lit = 'x0_case %d %d %d %d %s %s [%s]' % (rec['nf0'], rec['nx0'], rec['maxfun'], rec['ns'], IO.vlit(rec['x0']), sclit,
+                                                         '; '.join('(%s, %s)' % (IO.vlit(a_[0]), IO.flit(a_[1])) for a_ in ans))
+                out.append((lit, exp, dict(nf=rec['nf0'], maxfun=rec['maxfun'], ns=rec['ns'], run=run, flag=exp[3], real=True, x0block=True)))
+    ds.solve_main, ds.eval_least_squares_with_regularisation = sm, els
+    try:
+        for _ in range(count):
+            spec = histcorr.gen_run(rng)
+            spec['lam'] = 0.0
+            if rng.random() < 0.7:
+                spec['nsamples'] = int(rng.integers(2, 6))
+                spec['maxfun'] = int(rng.integers(1, 12)) if rng.random() < 0.5 else int(rng.integers(12, 40))
+            if rng.random() < 0.4:
+                spec['up']['restarts.use_restarts'] = True
+                spec['up']['restarts.use_soft_restarts'] = False
+                spec['up']['restarts.hard.use_old_rk'] = False      # restarted runs re-sample their start point
+                spec['rhoend'] = 1e-2
+            with warnings.catch_warnings(), np.errstate(all='ignore'):
+                warnings.simplefilter('ignore')
+                histcorr.run_plain(spec)
+    finally:
+        ds.solve_main, ds.eval_least_squares_with_regularisation = orig_sm, orig_els
+    return out
 
 
 def eo_task(args):
@@ -141,6 +213,7 @@ def correspondence(ctx):
     n = ctx.scale(320, 4800)
     res = C.parallel(eo_task, [(ctx.seed * 31 + i, n // 16) for i in range(16)], timeout_each=300)
     res += C.parallel(eo_real_task, [(ctx.seed * 37 + i + 1000, ctx.scale(3, 40)) for i in range(16)], timeout_each=600)
+    res += C.parallel(x0_real_task, [(ctx.seed * 53 + i + 2000, ctx.scale(6, 60)) for i in range(16)], timeout_each=600)
     cases = []
     for t, st, r in res:
         if st != 'ok':
@@ -165,7 +238,9 @@ def correspondence(ctx):
         dist[k] = dist.get(k, 0) + 1
         dist['flag%d' % d['flag']] = dist.get('flag%d' % d['flag'], 0) + 1
     ctx.cov['correspondence_distribution'] = dist
-    ctx.cov['correspondence_calls_from_real_solve_runs'] = sum(1 for (_, _, d) in cases if d.get('real'))
+    ctx.cov['correspondence_calls_from_real_solve_runs'] = sum(1 for (_, _, d) in cases if d.get('real') and not d.get('x0block'))
+    ctx.cov['correspondence_x0_blocks_from_real_solve_runs'] = sum(1 for (_, _, d) in cases if d.get('x0block'))
+    ctx.cov['correspondence_x0_blocks_cut_short_by_the_budget'] = sum(1 for (_, _, d) in cases if d.get('x0block') and d['run'] < d['ns'])
     if len(flags) != len(cases):
         ctx.oblige('correspondence:evaluate_objective', False, 'evaluated %d of %d cases' % (len(flags), len(cases)))
     elif bad:
